@@ -180,19 +180,50 @@ type BanCall struct {
 // RecStore is a syncer.PeerStore that records Ban calls (and otherwise behaves like
 // testutil.EphemeralPeerStore: nothing is actually refused, so that every case sees the same
 // connection behaviour).
+//
+// Like a store that drops the connections it still has into a banned address or subnet, it consults
+// the syncer (Syncer.Peers) from inside Ban. PeerStore is a caller-supplied interface: the syncer
+// must not call it with its own lock held. The callback is waited for BanCallbackWait; if it has
+// not returned by then, Ban returns anyway (so that the node, and the harness, go on) and the fact
+// is kept for the oracle peer-store-called-with-lock-held.
 type RecStore struct {
 	*testutil.EphemeralPeerStore
-	mu   sync.Mutex
-	bans []BanCall
+	mu    sync.Mutex
+	bans  []BanCall
+	cb    func()
+	stuck string
 }
+
+// BanCallbackWait bounds the wait for the store's call back into the syncer.
+const BanCallbackWait = 6 * time.Second
 
 func NewRecStore() *RecStore { return &RecStore{EphemeralPeerStore: testutil.NewEphemeralPeerStore()} }
 
 func (r *RecStore) Ban(addr string, d time.Duration, reason string) error {
 	r.mu.Lock()
 	r.bans = append(r.bans, BanCall{addr, reason})
+	cb := r.cb
 	r.mu.Unlock()
+	if cb != nil {
+		done := make(chan struct{})
+		go func() { cb(); close(done) }()
+		select {
+		case <-done:
+		case <-time.After(BanCallbackWait):
+			r.mu.Lock()
+			r.stuck = fmt.Sprintf("PeerStore.Ban(%q, %q) called Syncer.Peers() and got no answer within %v: the syncer calls the peer store with its own lock held", addr, reason, BanCallbackWait)
+			r.mu.Unlock()
+		}
+	}
 	return nil
+}
+
+// Stuck returns a description of the first Ban call whose call back into the syncer did not
+// return in time, or "".
+func (r *RecStore) Stuck() string {
+	r.mu.Lock()
+	defer r.mu.Unlock()
+	return r.stuck
 }
 
 func (r *RecStore) Bans() []BanCall {
@@ -254,6 +285,9 @@ func (nt *Net) NewNodeWith(cm *chain.Manager, ip string, opts ...syncer.Option) 
 		UniqueID:   gateway.GenerateUniqueID(),
 		NetAddress: l.Addr().String(),
 	}, append(base, opts...)...)
+	st.mu.Lock()
+	st.cb = func() { s.Peers() }
+	st.mu.Unlock()
 	n := &Node{Net: nt, CM: cm, S: s, Store: st, L: l, done: make(chan error, 1)}
 	go func() { n.done <- s.Run() }()
 	return n
@@ -347,4 +381,59 @@ func WaitFor(d time.Duration, cond func() bool) bool {
 		}
 		time.Sleep(15 * time.Millisecond)
 	}
+}
+
+// WorkTrace records a node's total work at every reorg notification. Its OnReorg listener reads the
+// tip state back from the manager, as wallets and indexers do from theirs: the manager must not
+// notify its listeners with its own lock held. The read is waited for ListenerWait; after that the
+// listener returns (so that the node, and the harness, go on) and the fact is kept for the oracle
+// listener-called-with-lock-held.
+type WorkTrace struct {
+	mu    sync.Mutex
+	works []*big.Int
+	stuck string
+}
+
+// ListenerWait bounds the wait of the reorg listener for the manager's answer.
+const ListenerWait = 6 * time.Second
+
+func TraceWork(n *Node) *WorkTrace {
+	w := &WorkTrace{works: []*big.Int{WorkOf(n.CM.TipState().TotalWork)}}
+	n.CM.OnReorg(func(idx types.ChainIndex) {
+		got := make(chan *big.Int, 1)
+		go func() { got <- WorkOf(n.CM.TipState().TotalWork) }()
+		select {
+		case tw := <-got:
+			w.mu.Lock()
+			w.works = append(w.works, tw)
+			w.mu.Unlock()
+		case <-time.After(ListenerWait):
+			w.mu.Lock()
+			if w.stuck == "" {
+				w.stuck = fmt.Sprintf("the OnReorg listener (tip %v) called Manager.TipState() and got no answer within %v: the manager notifies its listeners with its own lock held", idx, ListenerWait)
+			}
+			w.mu.Unlock()
+		}
+	})
+	return w
+}
+
+// Decreasing returns a description of the first decrease of the recorded total work, or "".
+func (w *WorkTrace) Decreasing() string {
+	w.mu.Lock()
+	defer w.mu.Unlock()
+	for i := 1; i < len(w.works); i++ {
+		if w.works[i].Cmp(w.works[i-1]) < 0 {
+			return fmt.Sprintf("total work went from %v to %v", w.works[i-1], w.works[i])
+		}
+	}
+	return ""
+}
+
+// Stuck returns a description of the first notification during which the manager did not
+// answer, or "".
+func (w *WorkTrace) Stuck() string {
+	w.mu.Lock()
+	defer w.mu.Unlock()
+	return w.stuck
 }
